@@ -79,6 +79,17 @@ CHECKS = {
    note='Trusted: z3, cyx transliteration, symsparse/CSR stubs, solver contract (B nonsingular, B y = r), norm stubs, reals for doubles. '
         'Bound: n <= 3/4, maxiter <= 3. Hierarchical smoothing sets/prolongators on real spaces are outside this check.',
    technique='symbolic execution of transliterated Cython + Python source with z3 (NRA); inductive energy step'),
+ 'C19': dict(
+   category='other', design_ref='4/C19',
+   text='make_knots (source exec\'d with documented-algorithm stubs for np.arange/linspace/repeat/concatenate on symbolic-length sequences) is decided '
+        'under two encodings of double arithmetic: the standard model of rounding (reals, |delta|<=2^-53 per operation; unsat is sound for doubles) proves '
+        'count/monotonicity/strict interior position of the breakpoints for all a, b, n in the stated range, and the exact IEEE-754 encoding (QF_FP, n as a '
+        'bit-vector) hunts for double counterexamples that are replayed on the real numpy. KnotVector queries (mesh, support, mesh-support, span indices, '
+        'findspan, first_active, Greville, refine, ==) and Spline.derivative run on fully symbolic knot vectors (coincident knots included) against '
+        'direct definitions / the Cox-de Boor oracle.',
+   note='Trusted: z3, the numpy stubs (documented algorithms), standard model validity in the normal range. Claim range for make_knots: |a|,|b|<=1e5, b-a>=1e-6, n<=2000. '
+        'Exact-FP search is bug hunting only (unknown = nothing found).',
+   technique='SMT over a standard-model encoding of rounding (NRA) + exact QF_FP bug hunting; symbolic execution for the queries'),
 }
 
 NA = {
